@@ -193,6 +193,16 @@ def rule_method_table(chk, tree):
     chk.decide(ok, 'method-table', 'unknown-method-raises', node=init, file=INT, func='Interpolator.__init__', detail_bad='unknown method accepted', detail_ok='raises')
 
 
+def on_every_path(fn, call_texts):
+    """every path from the entry of fn to its exit passes a statement that is exactly each of the given calls"""
+    g = C.build_cfg(fn)
+    for text in call_texts:
+        ids = [n.id for n in g.nodes if n.ast is not None and isinstance(n.ast, ast.Expr) and isinstance(n.ast.value, ast.Call) and compact(n.ast.value) == text]
+        if not ids or not g.must_pass(g.entry, g.exit, ids):
+            return False
+    return True
+
+
 def rule_rebinding(chk, tree):
     icls = M.find_class(tree, 'Interpolator')
     upa = M.find_func(icls, 'update_particle_arrays')
@@ -200,7 +210,7 @@ def rule_rebinding(chk, tree):
     src = compact(upa)
     arr = [a for a in ast.walk(upa) if isinstance(a, ast.Assign) and compact(a.targets[0]) == 'arrays']
     ok = 'self._set_particle_arrays(particle_arrays)' in src and bool(arr) and compact(arr[0].value) == 'self.particle_arrays+[self.pa]' and \
-        'self._create_nnps(arrays)' in src and 'self.func_eval.update_particle_arrays(arrays)' in src
+        on_every_path(upa, ['self._create_nnps(arrays)', 'self.func_eval.update_particle_arrays(arrays)'])
     if ok:
         setn = [n.id for n in g.nodes if n.ast is not None and isinstance(n.ast, ast.Expr) and M.call_name(n.ast.value) == 'self._set_particle_arrays']
         an = g.node_of(arr[0])
@@ -263,8 +273,9 @@ def rule_rebinding(chk, tree):
     ecls = M.find_class(st, 'SPHEvaluator')
     e_up = M.find_func(ecls, 'update_particle_arrays')
     src = compact(e_up)
-    chk.decide('self._create_nnps(arrays)' in src and 'self.func_eval.update_particle_arrays(arrays)' in src, 'rebinding', 'SPHEvaluator.update_particle_arrays', node=e_up,
-               file=SEV, func='SPHEvaluator.update_particle_arrays', detail_bad='new arrays do not get both a new neighbour structure and a re-bound evaluator',
+    chk.decide(on_every_path(e_up, ['self._create_nnps(arrays)', 'self.func_eval.update_particle_arrays(arrays)']), 'rebinding', 'SPHEvaluator.update_particle_arrays', node=e_up,
+               file=SEV, func='SPHEvaluator.update_particle_arrays', detail_bad='not every path gives the arrays passed in both a new neighbour structure built on them and a re-bound evaluator '
+               '(a reused neighbour structure may have been built on other arrays: SPHEvaluator keeps no record of the arrays the current one was built on)',
                detail_ok='new NNPS and evaluator re-bound to the same arrays')
     e_cn = M.find_func(ecls, '_create_nnps')
     c = [x for x in M.calls(e_cn) if M.call_name(x) == 'self.nnps_factory']
